@@ -93,6 +93,10 @@ func (ps *PubSub) Subscribe(_ context.Context, conn *net.Conn, channels []string
 			})
 		}
 	}
+
+	// The confirmations are written before the command returns, so that the reply to the connection's next
+	// command cannot overtake them.
+	ob.flush()
 }
 
 func (ps *PubSub) Unsubscribe(_ context.Context, conn *net.Conn, channels []string, withPattern bool) []byte {
